@@ -68,6 +68,62 @@ def make_isotherm(pg, rng, mat, ads, kind):
     return pg.ModelIsotherm(model=make(pg, name, sample_params(name, rng)), **common)
 
 
+# option defaults as DOCUMENTED in the docstrings of the entry points (not read from the signatures: a changed default must show)
+DOCUMENTED_DEFAULTS = {"autoinsert_material": True, "autoinsert_adsorbate": True, "autoinsert_properties": True, "overwrite": False}
+
+
+class Routes:
+    """Every public way to reach an entry point of the store.  The property is about the operations (`isotherm.to_db`, `*_to_db`,
+    `*_delete_db`, `*_from_db`), not about one spelling of them: each call of a history is routed at random through
+      * the function in pygaps.parsing.sqlite, its re-export in pygaps.parsing, a re-export at top level (whichever exist), or
+      * the convenience METHOD of the operand object (`<object>.to_db(...)`, `<object>.delete_db(...)`: whichever the object's class
+        offers - discovered with getattr, so methods added to Material / Adsorbate later are routed through as well),
+    and an option whose value is the documented default is left out at random (the defaults of every route are then exercised).
+    The model line and the oracles are the same for every route; the route is part of the failing input."""
+
+    def __init__(self, ck, pg, pgsql):
+        import pygaps.parsing as pkg
+        self.ck, self.rng = ck, ck.rng
+        self.spaces = [("pygaps.parsing.sqlite", pgsql), ("pygaps.parsing", pkg), ("pygaps", pg)]
+        self.last = None
+
+    def routes(self, fname, operand):
+        fns, meths = [], []
+        for label, ns in self.spaces:
+            f = getattr(ns, fname, None)
+            if callable(f):
+                fns.append((f"{label}.{fname}", f))
+        noun, _, verb = fname.partition("_")
+        if operand and verb in ("to_db", "delete_db") and not isinstance(operand[0], (str, bytes, dict, list, tuple, int, float, type(None))):
+            m = getattr(operand[0], verb, None)
+            if callable(m):
+                meths.append((f"{type(operand[0]).__name__}.{verb}", m))
+        return fns, meths
+
+    def call(self, fname, path, *operand, **opts):
+        """Call entry point `fname` on the database file `path` (operand: the item / name / type dictionary, if the entry point takes one)."""
+        rng = self.rng
+        fns, meths = self.routes(fname, operand)
+        kw = {"db_path": path, "verbose": False}
+        omitted = []
+        for k, v in opts.items():
+            if k in DOCUMENTED_DEFAULTS and v == DOCUMENTED_DEFAULTS[k] and rng.random() < 0.4:
+                omitted.append(k)
+            else:
+                kw[k] = v
+        if meths and rng.random() < 0.5:
+            label, f = rng.choice(meths)
+            args = ()
+        else:
+            label, f = rng.choice(fns)
+            args = operand
+        self.last = label + (" defaults:" + ",".join(omitted) if omitted else "")
+        tally = self.ck.cov.setdefault("route_distribution", {})             # calls per route (not counted as cases)
+        key = label.rsplit(".", 1)[0] + (".<method>" if not args and operand else ".<function>") + (" with an option left at its default" if omitted else "")
+        tally[key] = tally.get(key, 0) + 1
+        return f(*args, **kw)
+
+
 def expected_refusal(kind, a, T):
     """Dictionary semantics: must this call be refused, given the raw tables T before the call?  (independent of the Lean model)"""
     if kind == "adsToDb" or kind == "matToDb":
@@ -210,6 +266,10 @@ def _schema_tie(ck, pg, pgsql, files):
         iso_holder["iso"] = pg.PointIsotherm(pressure=[0.1, 0.2, 0.3], loading=[1.0, 2.0, 3.0], material="pgv-tie-mat", adsorbate="pgv-tie-gas",
                                              temperature=300.0, note="tie")
         pgsql.isotherm_to_db(iso_holder["iso"], db_path=path, verbose=False)
+
+    def up_iso_method():                                                 # the same entry point reached through the object's method
+        iso = pg.PointIsotherm(pressure=[0.1, 0.2, 0.4], loading=[1.0, 2.0, 3.5], material="pgv-tie-mat2", adsorbate="pgv-tie-gas2", temperature=301.0, note="tie2")
+        iso.to_db(db_path=path, verbose=False)
     kw = dict(db_path=path, verbose=False)
     script = [
         ("isotherm_type_to_db", lambda: pgsql.isotherm_type_to_db({"type": "pointisotherm"}, **kw)),
@@ -228,6 +288,7 @@ def _schema_tie(ck, pg, pgsql, files):
         ("material_to_db", lambda: pgsql.material_to_db(pg.Material("pgv-tie-m", tie_t=3.0), overwrite=True, **kw)),
         ("materials_from_db", lambda: pgsql.materials_from_db(**kw)),
         ("isotherm_to_db", up_iso),
+        ("isotherm_to_db", up_iso_method),
         ("isotherms_from_db", lambda: pgsql.isotherms_from_db(**kw)),
         ("isotherms_from_db", lambda: pgsql.isotherms_from_db(criteria={"material": "pgv-tie-mat"}, **kw)),
         ("isotherm_delete_db", lambda: pgsql.isotherm_delete_db(iso_holder["iso"].iso_id, **kw)),
@@ -284,13 +345,16 @@ def _bulk(ck, pg, pgsql, rng, thorough, files):
     try:
         _bulk_body(ck, pg, pgsql, files, step)
     except Exception as e:  # noqa
-        ck.fail_case({"op": step["call"], "outcome": sl.outcome_of(e) if sl.outcome_of(e) == "parsing" else err_class(e), "clause": "valid operation refused", "bulk": True},
+        ck.fail_case({"op": step["call"], "outcome": sl.outcome_of(e) if sl.outcome_of(e) == "parsing" else err_class(e), "clause": "valid operation refused", "bulk": True,
+                      "route": getattr(step.get("rt"), "last", None)},
                      {"call": step["call"], "error": repr(e)[:400]})
 
 
 def _bulk_body(ck, pg, pgsql, files, step):
     path = files.new()
     n = ck.n(130, 260)
+    rt = Routes(ck, pg, pgsql)
+    step["rt"] = rt
     step["call"] = "typeToDb"
     for t in ("isotherm", "pointisotherm", "modelisotherm"):
         pgsql.isotherm_type_to_db({"type": t}, db_path=path, verbose=False)
@@ -303,7 +367,7 @@ def _bulk_body(ck, pg, pgsql, files, step):
     for i in range(n):
         iso = pg.PointIsotherm(pressure=[0.1, 0.2 + i * 1e-3, 0.5], loading=[1.0, 2.0, 3.0 + i], material="pgv-bulk", adsorbate="pgv-bulk-gas", temperature=300.0,
                                pressure_mode="absolute", pressure_unit="bar", loading_basis="molar", loading_unit="mmol", material_basis="mass", material_unit="g", temperature_unit="K")
-        pgsql.isotherm_to_db(iso, db_path=path, verbose=False)
+        rt.call("isotherm_to_db", path, iso)
         ids.append(iso.iso_id)
     step["call"] = "isotherms_from_db"
     got = pgsql.isotherms_from_db(db_path=path, verbose=False)
@@ -318,7 +382,7 @@ def _bulk_body(ck, pg, pgsql, files, step):
     last = [g for g in got if g.iso_id == ids[-1]]
     if last:
         step["call"] = "isoDelete"
-        pgsql.isotherm_delete_db(last[0], db_path=path, verbose=False)
+        rt.call("isotherm_delete_db", path, last[0])
         left = pgsql.isotherms_from_db(db_path=path, verbose=False)
         if sorted(g.iso_id for g in left) != sorted(ids[:-1]) and got_ids == sorted(ids):
             ck.fail_case({"op": "isoDelete", "clause": "deletion removes exactly that item", "bulk": True}, {"left": len(left), "expected": n - 1})
@@ -327,6 +391,7 @@ def _bulk_body(ck, pg, pgsql, files, step):
 def _run(ck, pg, pgsql, BaseIsotherm, rng, thorough, files):
     nh = ck.n(25, 120)
     maxops = ck.n(25, 60)
+    rt = Routes(ck, pg, pgsql)
     lines, plan = [], []
     n_dis = 0
     records = []
@@ -381,6 +446,7 @@ def _run(ck, pg, pgsql, BaseIsotherm, rng, thorough, files):
             exc = None
             detail = {"file": fi, "op": kind}
             obj = None
+            rt.last = None
             try:
                 if kind == "adsToDb":
                     name, props, autoins, overwrite = a
@@ -389,7 +455,7 @@ def _run(ck, pg, pgsql, BaseIsotherm, rng, thorough, files):
                     full.pop("name")
                     line = " ".join(["adsToDb", name, "T" if autoins else "F", "T" if overwrite else "F"] + sl.props_tokens(full))
                     a = (name, full, autoins, overwrite)
-                    pgsql.adsorbate_to_db(obj, db_path=path, autoinsert_properties=autoins, overwrite=overwrite, verbose=False)
+                    rt.call("adsorbate_to_db", path, obj, autoinsert_properties=autoins, overwrite=overwrite)
                 elif kind == "matToDb":
                     name, props, autoins, overwrite = a
                     obj = pg.Material(name, **copy.deepcopy(props))
@@ -397,35 +463,35 @@ def _run(ck, pg, pgsql, BaseIsotherm, rng, thorough, files):
                     full.pop("name")
                     line = " ".join(["matToDb", name, "T" if autoins else "F", "T" if overwrite else "F"] + sl.props_tokens(full))
                     a = (name, full, autoins, overwrite)
-                    pgsql.material_to_db(obj, db_path=path, autoinsert_properties=autoins, overwrite=overwrite, verbose=False)
+                    rt.call("material_to_db", path, obj, autoinsert_properties=autoins, overwrite=overwrite)
                 elif kind == "adsDelete":
                     line = f"adsDelete {a[0]}"
-                    pgsql.adsorbate_delete_db(pg.Adsorbate(a[0]) if a[1] else a[0], db_path=path, verbose=False)
+                    rt.call("adsorbate_delete_db", path, pg.Adsorbate(a[0]) if a[1] else a[0])
                 elif kind == "matDelete":
                     line = f"matDelete {a[0]}"
-                    pgsql.material_delete_db(pg.Material(a[0]) if a[1] else a[0], db_path=path, verbose=False)
+                    rt.call("material_delete_db", path, pg.Material(a[0]) if a[1] else a[0])
                 elif kind == "typeToDb":
                     table, t, u, d, overwrite = a
                     line = " ".join(["typeToDb", table, t if t is not None else "~", u or '""', d or '""', "T" if overwrite else "F"])
-                    fn = {"adsorbate": pgsql.adsorbate_property_type_to_db, "material": pgsql.material_property_type_to_db, "isotherm": pgsql.isotherm_type_to_db}[table]
+                    fn = {"adsorbate": "adsorbate_property_type_to_db", "material": "material_property_type_to_db", "isotherm": "isotherm_type_to_db"}[table]
                     td = {"type": t, "description": d or None}
                     if table != "isotherm":
                         td["unit"] = u or None
-                    fn(td, db_path=path, overwrite=overwrite, verbose=False)
+                    rt.call(fn, path, td, overwrite=overwrite)
                 elif kind == "typeDelete":
                     table, t = a
                     line = f"typeDelete {table} {t}"
-                    fn = {"adsorbate": pgsql.adsorbate_property_type_delete_db, "material": pgsql.material_property_type_delete_db, "isotherm": pgsql.isotherm_type_delete_db}[table]
-                    fn(t, db_path=path, verbose=False)
+                    fn = {"adsorbate": "adsorbate_property_type_delete_db", "material": "material_property_type_delete_db", "isotherm": "isotherm_type_delete_db"}[table]
+                    rt.call(fn, path, t)
                 elif kind == "isoPropType":
                     which, t = a
                     line = f"isoPropTypeOp {which}"
                     if which.startswith("to_db"):
-                        pgsql.isotherm_property_type_to_db({"type": t, "unit": "u", "description": "d"}, db_path=path, overwrite=which.endswith("overwrite"), verbose=False)
+                        rt.call("isotherm_property_type_to_db", path, {"type": t, "unit": "u", "description": "d"}, overwrite=which.endswith("overwrite"))
                     elif which == "from_db":
-                        pgsql.isotherm_property_types_from_db(db_path=path, verbose=False)
+                        rt.call("isotherm_property_types_from_db", path)
                     else:
-                        pgsql.isotherm_property_type_delete_db(t, db_path=path, verbose=False)
+                        rt.call("isotherm_property_type_delete_db", path, t)
                 elif kind == "isoToDb":
                     ikind, mat, ads, am, aa, again = a
                     if again and stored[fi]:
@@ -435,7 +501,7 @@ def _run(ck, pg, pgsql, BaseIsotherm, rng, thorough, files):
                     desc = sl.iso_description(pg, obj)
                     line = sl.iso_line(desc, am, aa)
                     a = (desc, am, aa)
-                    pgsql.isotherm_to_db(obj, db_path=path, autoinsert_material=am, autoinsert_adsorbate=aa, verbose=False)
+                    rt.call("isotherm_to_db", path, obj, autoinsert_material=am, autoinsert_adsorbate=aa)
                 elif kind == "isoDelete":
                     how = a[0]
                     if how == "absent" or not stored[fi]:
@@ -443,7 +509,7 @@ def _run(ck, pg, pgsql, BaseIsotherm, rng, thorough, files):
                         iid = target
                     elif how == "retrieved":
                         iid = rng.choice(stored[fi])[1]["id"]
-                        got = [i for i in pgsql.isotherms_from_db(db_path=path, verbose=False) if i.iso_id == iid]
+                        got = [i for i in rt.call("isotherms_from_db", path) if i.iso_id == iid]
                         target = got[0] if got else iid
                         detail["via"] = "retrieved object" if got else "id (retrieved object has another id)"
                     else:
@@ -451,7 +517,7 @@ def _run(ck, pg, pgsql, BaseIsotherm, rng, thorough, files):
                         target = iid if rng.random() < 0.5 else [s for s in stored[fi] if s[1]["id"] == iid][0][0]
                     line = f"isoDelete {iid}"
                     a = (iid,)
-                    pgsql.isotherm_delete_db(target, db_path=path, verbose=False)
+                    rt.call("isotherm_delete_db", path, target)
             except Exception as e:  # noqa
                 exc = e
             out = sl.outcome_of(exc)
@@ -468,7 +534,7 @@ def _run(ck, pg, pgsql, BaseIsotherm, rng, thorough, files):
             plan.append(None)
             lines.append("op - " + line)
             plan.append((h, fi, kind, out, sl.dump_tables(after), line))
-            sig = {"op": kind, "outcome": out if exc is None or out == "parsing" else err_class(exc)}
+            sig = {"op": kind, "outcome": out if exc is None or out == "parsing" else err_class(exc), "route": rt.last}
             changed = before != after
             ck.count((kind, out, line), nontrivial=(out == "ok" and changed), bucket=f"{kind}:{out}",
                      sample={"op": line[:200], "outcome": out} if len(records) % 211 == 0 else None)
@@ -486,7 +552,7 @@ def _run(ck, pg, pgsql, BaseIsotherm, rng, thorough, files):
             if out == "other":
                 ck.fail_case({**sig, "clause": "refusal is not a ParsingError", "reason": why or ""}, {"line": line, "error": repr(exc)[:300]})
             if out == "ok":
-                _check_effect(ck, pg, pgsql, kind, a, obj, path, before, after, sig, line, stored[fi])
+                _check_effect(ck, pg, rt, kind, a, obj, path, before, after, sig, line, stored[fi])
         # the outcome must not depend on other files / the session: replay file 0's accepted uploads on a new file in this same session
         if nfiles > 1 and stored[0]:
             p2 = files.new()
@@ -494,13 +560,13 @@ def _run(ck, pg, pgsql, BaseIsotherm, rng, thorough, files):
             try:
                 for t in ("isotherm", "pointisotherm", "modelisotherm"):
                     pgsql.isotherm_type_to_db({"type": t}, db_path=p2, verbose=False)
-                pgsql.isotherm_to_db(iso, db_path=p2, verbose=False)
+                rt.call("isotherm_to_db", p2, iso)
                 ok2 = True
             except Exception as e:  # noqa
                 ok2 = repr(e)[:200]
             ck.count(("other-file", h), bucket="independent-of-other-files")
             if ok2 is not True:
-                ck.fail_case({"op": "isoToDb", "clause": "outcome depends on other database files / the session"}, {"error": ok2, "isotherm": desc["id"]})
+                ck.fail_case({"op": "isoToDb", "clause": "outcome depends on other database files / the session", "route": rt.last}, {"error": ok2, "isotherm": desc["id"]})
 
     # ------------------------------------------------------------------ correspondence with the Lean model
     try:
@@ -523,22 +589,26 @@ def _run(ck, pg, pgsql, BaseIsotherm, rng, thorough, files):
                 if n_dis <= 3:
                     ck.broken.append({"step": "correspondence Model/Store.lean", "what": {"op": line[:300], "implementation": [out, dump[:400]], "model": [mo, mdump[:400]]}})
     ck.cov["correspondence_disagreements"] = n_dis
+    ck.cov["routes"] = ("every call of a history goes through a randomly chosen public route to its entry point: pygaps.parsing.sqlite.<f>, the re-export "
+                        "pygaps.parsing.<f>, or the method of the operand object (<isotherm>.to_db; any to_db / delete_db method a Material / Adsorbate offers); "
+                        "options at their documented default are left out at random")
     ck.cov["rule"] = ("seeded histories (quick 25 x <= 25 ops, thorough 120 x <= 60) over 1-3 freshly created database files: adsorbate/material/isotherm/property-type uploads "
                       "(overwrite, auto-insert flags, None / list / unsupported values, duplicates), deletions (by name, by object, by retrieved object, absent, still referenced), "
                       "three isotherm classes; non-trivial = accepted call that changed a table; distinct = distinct (operation, outcome, arguments)")
     ck.assumptions += ["SQLite's own constraint enforcement and REAL/TEXT affinity (values compared after the same canonicalisation)"]
 
 
-def _retrieve(ck, fn, path, sig, line):
-    """`*_from_db` on a store whose last call was accepted: a retrieval that raises is a failing input (returns None)."""
+def _retrieve(ck, rt, fname, path, sig, line):
+    """`*_from_db` (through any public route) on a store whose last call was accepted: a retrieval that raises is a failing input (returns None)."""
     try:
-        return list(fn(db_path=path, verbose=False))
+        return list(rt.call(fname, path))
     except Exception as e:  # noqa
-        ck.fail_case({**sig, "clause": "retrieval after an accepted call raises", "retrieval": fn.__name__, "error_class": err_class(e)}, {"line": line[:300], "error": repr(e)[:300]})
+        ck.fail_case({**sig, "clause": "retrieval after an accepted call raises", "retrieval": fname, "retrieval_route": rt.last, "error_class": err_class(e)},
+                     {"line": line[:300], "error": repr(e)[:300]})
         return None
 
 
-def _check_effect(ck, pg, pgsql, kind, a, obj, path, before, after, sig, line, stored):
+def _check_effect(ck, pg, rt, kind, a, obj, path, before, after, sig, line, stored):
     """An accepted call has exactly the dictionary effect, and what was uploaded can be retrieved with equal content."""
     if kind in ("adsToDb", "matToDb"):
         name, props = a[0], a[1]
@@ -552,7 +622,7 @@ def _check_effect(ck, pg, pgsql, kind, a, obj, path, before, after, sig, line, s
         others_a = [r for r in after[pk] if r[0] != name]
         if name not in after[key] or rows != exp or others_a != others_b:
             ck.fail_case({**sig, "clause": "upload stores exactly the item"}, {"line": line, "stored": rows, "expected": exp})
-        got = _retrieve(ck, pgsql.adsorbates_from_db if kind == "adsToDb" else pgsql.materials_from_db, path, sig, line)
+        got = _retrieve(ck, rt, "adsorbates_from_db" if kind == "adsToDb" else "materials_from_db", path, sig, line)
         if got is None:
             return
         mine = [g for g in got if g.name == name]
@@ -575,8 +645,8 @@ def _check_effect(ck, pg, pgsql, kind, a, obj, path, before, after, sig, line, s
         # retrieval of the type collections: what `*_types_from_db` returns is exactly the raw table (type, unit, description), in insertion order
         table = a[0]
         key = {"adsorbate": "adsTypes", "material": "matTypes", "isotherm": "isoTypes"}[table]
-        fn = {"adsorbate": pgsql.adsorbate_property_types_from_db, "material": pgsql.material_property_types_from_db, "isotherm": pgsql.isotherm_types_from_db}[table]
-        got = _retrieve(ck, fn, path, sig, line)
+        fn = {"adsorbate": "adsorbate_property_types_from_db", "material": "material_property_types_from_db", "isotherm": "isotherm_types_from_db"}[table]
+        got = _retrieve(ck, rt, fn, path, sig, line)
         if got is None:
             return
         if table == "isotherm":
@@ -590,7 +660,7 @@ def _check_effect(ck, pg, pgsql, kind, a, obj, path, before, after, sig, line, s
     elif kind == "isoToDb":
         desc = a[0]
         stored.append((obj, desc))
-        got = _retrieve(ck, pgsql.isotherms_from_db, path, sig, line)
+        got = _retrieve(ck, rt, "isotherms_from_db", path, sig, line)
         if got is None:
             return
         mine = [g for g in got if g.iso_id == desc["id"]]
